@@ -41,6 +41,15 @@ MUTANTS = [
     ("refines-no-tolerance", POLY, 'if -res["fun"] <= b_temp + LP_ROUNDOFF_TOLERANCE:', 'if -res["fun"] <= b_temp:', ["C03"], []),
     ("refines-ignores-last-row", POLY, "for i in range(n_r):\n            constraint = a_r[[i], :]", "for i in range(n_r - 1):\n            constraint = a_r[[i], :]", ["C03"], []),
     ("quotient-always-extends", IOC, "if assumptions.refines(other.a):", "if True:", ["C02"], []),
+    ("eq-outputvars-self", IOC, "and self.outputvars == other.outputvars", "and self.outputvars == self.outputvars", ["C19"], []),
+    ("term-self-rename", POLY, "if source_var in self.vars and source_var != target_var:", "if source_var in self.vars:", ["C16"], []),
+    ("rename-keeps-source-coefficient", POLY, "new_term.variables[target_var] += new_term.variables[source_var]", "new_term.variables[target_var] = new_term.variables[source_var]", ["C16"], []),
+    ("optimize-wrong-polarity", POLY, "            return polarity * fun_val", "            return fun_val", ["C12"], []),
+    ("optimize-unbounded-as-error", POLY, 'if res["status"] == 3:\n            return None\n        elif res["status"] == 0:\n            fun_val', 'if res["status"] == 0:\n            fun_val', ["C12"], []),
+    ("evaluate-strict", POLY, "if new_term.constant < 0:", "if new_term.constant <= 0:", ["C11"], []),
+    ("is-empty-unbounded-means-empty", POLY, 'elif res["status"] in {0, 3}:\n            return False', 'elif res["status"] in {0}:\n            return False\n        elif res["status"] == 3:\n            return True', [], []),
+    ("nested-contains-all", CPD, "                if tl.contains_behavior(behavior):\n                    return True", "                if not tl.contains_behavior(behavior):\n                    return False", ["C17"], []),
+    ("intersect-keeps-empty", CPD, "                if not new_tl.is_empty():\n                    new_nested_tl.append(new_tl)", "                new_nested_tl.append(new_tl)", ["C17"], []),
     ("compose-wrong-context", IOC, "other.a | other.g, assumptions_forbidden_vars, simplify=True, tactics_order=tactics_order", "other.a, assumptions_forbidden_vars, simplify=True, tactics_order=tactics_order", [], []),
     ("tactic2-polarity", POLY, "polarity = 1\n        if refine:\n            polarity = -1\n        objective = [polarity * term.get_coefficient(var) for var in variables]", "polarity = -1\n        if refine:\n            polarity = 1\n        objective = [polarity * term.get_coefficient(var) for var in variables]", ["C04"], []),
     ("reduce-drops-near-redundant", POLY, '(res["status"] == 0 and -res["fun"] <= b_temp[i])', '(res["status"] == 0 and -res["fun"] <= b_temp[i] + 0.5)', ["C07"], []),
